@@ -71,7 +71,7 @@ fn main() {
         silence_panics();
         let idx: usize = args.get(3).and_then(|s| s.parse().ok()).unwrap_or(0);
         let iters: u64 = args.get(4).and_then(|s| s.parse().ok()).unwrap_or(1000);
-        std::process::exit(c17::free_child(&args[2], idx, iters));
+        std::process::exit(c17::free_child(&args[2], idx, iters, args.get(5).map(|s| s.as_str())));
     }
     let tier = match args[2].as_str() {
         "quick" => Tier::Quick,
